@@ -92,6 +92,28 @@ func runGrefcount(c *Ctx) {
 					}
 				}
 			}
+			// a path that stores the result stores all of it: resolved = true (a failed resolution is a
+			// result too: later references are told the error), the value, the error, the release function
+			if callIdx >= 0 && p.End == core.EndReturn && stored {
+				wroteTrue := false
+				wrote := map[string]bool{}
+				for _, ev := range p.Events[callIdx:] {
+					if assignsField(ev, resolved, "true") {
+						wroteTrue = true
+					}
+					for _, f := range []string{"refcount.RefCount.value", "refcount.RefCount.valueErr"} {
+						if assignsField(ev, f, "") {
+							wrote[f] = true
+						}
+					}
+				}
+				a.note("R7", name+"/store-result/marks-resolved", p.Events[callIdx].Pos, !wroteTrue,
+					"a path that stores the resolver's result sets resolved = true, whatever the result",
+					"a path stores the resolver's result without setting resolved to the constant true: a failed resolution is not kept, references added later are neither told the error nor start a new call", p)
+				a.note("R7", name+"/store-result/all-fields", p.Events[callIdx].Pos, !(wrote["refcount.RefCount.value"] && wrote["refcount.RefCount.valueErr"]),
+					"a path that stores the resolver's result writes both the value and the error field",
+					"a path stores the resolver's result without writing both value and valueErr: the field left alone keeps what an earlier resolution put there, and references added later are told a stale value or error", p)
+			}
 			if callIdx >= 0 && p.End == core.EndReturn {
 				resPaths = append(resPaths, resPath{g.litsBefore(len(p.Events), false), stored, p})
 				a.note("R7", name+"/release-func-fate", p.Events[callIdx].Pos, !(stored || calledOrNil),
@@ -266,6 +288,40 @@ func runGrefcount(c *Ctx) {
 					if isFn(ev, cbf) {
 						cbsIdx = i
 					}
+				}
+				// an invalidation (resolved = false) tells the references in the same section, whatever the
+				// value was, and leaves no error behind
+				if assignsField(ev, resolved, "false") {
+					told, errGone := false, false
+					var secLits []*r2Lit
+					for j := 0; j < len(p.Events); j++ {
+						if g.sec[j] != g.sec[i] || g.sec[i] < 0 {
+							continue
+						}
+						b := p.Events[j]
+						if j > i {
+							for _, cbf := range an.callRefCbs {
+								if isFn(b, cbf) {
+									told = true
+								}
+							}
+						}
+						if assignsField(b, "refcount.RefCount.valueErr", "nil") {
+							errGone = true
+						}
+						if g.lits[j] != nil {
+							secLits = append(secLits, g.lits[j])
+						}
+					}
+					if !errGone {
+						errGone, _ = implies(secLits, eq("nil", "refcount.RefCount.valueErr"))
+					}
+					a.note("R7", "refcount/invalidation/notifies-references", ev.Pos, !told,
+						"a path that invalidates the resolved state tells the references (resolved=false) in the same section",
+						"the resolved state is invalidated on a path that does not notify the references afterwards in the same section: a holder of the zero value or of an error keeps using it, its released callback never fires and its promise keeps the stale result", p)
+					a.note("R7", "refcount/invalidation/leaves-no-error", ev.Pos, !errGone,
+						"a path that invalidates the resolved state resets valueErr, or has found it nil",
+						"the resolved state is invalidated on a path that neither resets valueErr nor has found it nil: the next successful resolution is reported together with the stale error to references added later", p)
 				}
 				if g.callsFieldAt(i, "refcount.RefCount.resolveCtxCancel") {
 					a.note("R7", "refcount/generation-bump-before-cancel", ev.Pos, !(nonceInc >= 0 && g.sec[nonceInc] == g.sec[i]),
@@ -535,6 +591,7 @@ func runGrefcount(c *Ctx) {
 		c.Walk("R12", &core.Config{Follow: consumerFollow}, core.Entry{Decl: d}, func(p *core.Path) {
 			g := prepare(c, p)
 			released := false
+			obtained := false
 			errRole := "?err"
 			for i, ev := range p.Events {
 				// the error of the await: the second result of the promise's Await call, wherever it is made
@@ -550,6 +607,37 @@ func runGrefcount(c *Ctx) {
 				if (ev.Kind == core.KCall || ev.Kind == core.KEnter) && ev.Callee != nil && core.FuncName(ev.Callee) == "refcount.(*Ref).Release" {
 					released = true
 					a.requireGuard("R12", name+"/release-on-error-only", g, i, false, fnot(eq(errRole, "nil")), "releasing the reference")
+				}
+				// a return that hands no release function back to the caller has released the reference
+				// itself (or never obtained one): otherwise nobody can ever drop it
+				if (ev.Kind == core.KCall || ev.Kind == core.KEnter) && ev.Callee != nil && ev.Frame.Parent == nil {
+					switch ev.Callee.Name() {
+					case "AddRef", "WaitWithReleased", "AddRefPromise":
+						if rn := core.RecvNamed(ev.Callee); rn != nil && rn.Obj().Name() == "RefCount" {
+							obtained = true
+						}
+					}
+				}
+				if ev.Kind == core.KReturn && ev.Frame.Parent == nil && obtained {
+					rs := returnExprs(p, i)
+					handsBack := false
+					for _, r := range rs {
+						if t := ev.Frame.Info().TypeOf(r); t != nil && !isNilExpr(r, ev.Frame) {
+							switch tt := t.Underlying().(type) {
+							case *types.Signature:
+								handsBack = true
+							case *types.Pointer:
+								if n, ok := tt.Elem().(*types.Named); ok && n.Obj().Name() == "Ref" {
+									handsBack = true
+								}
+							}
+						}
+					}
+					if !handsBack {
+						a.note("R12", name+"/reference-released-or-handed-back", ev.Pos, !released,
+							"a return that hands the caller neither the reference nor a release function has released the reference",
+							"the function returns without handing back the reference (or a release function) on a path that did not release it: the reference can never be dropped and the value is held for ever", p)
+					}
 				}
 				if ev.Kind == core.KReturn && ev.Frame.Parent == nil && len(ev.Results) == 3 && isNilExpr(ev.Results[2], ev.Frame) {
 					a.note("R12", name+"/success-keeps-reference", ev.Pos, released, "a successful return leaves the reference held", "a successful return follows a Release of the reference: the value can be released while the caller uses it", p)
